@@ -1,6 +1,8 @@
 from vcheck.runner import S, X, shards
 
 ENGINE = "pyz3+crosshair-z3"
+TECHNIQUE = ("Engine S: forking symbolic execution of vDatetime.to_ical/from_ical and vDDDTypes.__init__ from their AST with all six wall-clock fields symbolic and an opaque zone (z3 unsat = holds for every wall time); "
+             "CrossHair/z3: path-exhaustive execution of the real providers over tables of zones x wall times x shapes; counterexamples replayed concretely")
 FUNCTIONS = ["icalendar.prop.vDatetime.to_ical/from_ical", "icalendar.prop.vDDDTypes.__init__", "icalendar.prop.vDDDLists.__init__", "icalendar.prop.vPeriod.__init__",
              "icalendar.timezone.tzid.tzid_from_dt/tzid_from_tzinfo/tzids_from_tzinfo", "icalendar.timezone.tzp.TZP.timezone/clean_timezone_id/localize/localize_utc",
              "icalendar.timezone.zoneinfo.ZONEINFO.localize/localize_utc/timezone", "icalendar.timezone.pytz.PYTZ.localize/localize_utc/timezone",
